@@ -129,7 +129,7 @@ NHexR(a) == IF a = <<>> THEN "" ELSE LET h == NDivSmall(a, 16) IN NHexR(h.q) \o 
 NHex(a) == IF a = <<>> THEN "0" ELSE NHexR(a)
 
 \* ---------------------------------------------------- small numbers by definition
-SmallPrime(n) == n >= 2 /\ \A d \in 2..(n - 1) : d * d > n \/ n % d # 0
+SmallPrime(n) == n >= 2 /\ n < 100000 /\ \A d \in 2..(IF n - 1 < 320 THEN n - 1 ELSE 320) : d * d > n \/ n % d # 0     \* (trial division up to the square root)
 RECURSIVE NProd(_, _)
 NProd(fs, i) == IF i > Len(fs) THEN N1 ELSE NMul(NFromInt(fs[i]), NProd(fs, i + 1))
 \* Lucas certificate: n - 1 = product of the primes in fs (each verified prime by definition); n is prime when some
